@@ -30,6 +30,7 @@ type Config struct {
 	ReplayVals  map[string]uint64 // concrete replay: nd values by name
 	ReplayDecs  []int
 	StopAtFirst bool
+	FallbackMs  int // one-shot cvc5 integer-encoding fallback limit
 }
 
 func (c *Config) defaults() {
@@ -55,7 +56,7 @@ func (c *Config) defaults() {
 		c.SolverName = "z3"
 	}
 	if c.TimeoutMs == 0 {
-		c.TimeoutMs = 60000
+		c.TimeoutMs = 3000
 	}
 }
 
@@ -128,6 +129,9 @@ type Machine struct {
 	nIDs         int
 	preemptBound int
 	pendingVal   uint64
+
+	lastPanicStack string
+	fb             FallbackStats
 }
 
 type pathResult struct {
@@ -148,6 +152,7 @@ type Violation struct {
 	Decisions []int             `json:"decisions"`
 	DecKinds  []string          `json:"decision_kinds"`
 	Events    []string          `json:"events,omitempty"`
+	KnownID   string            `json:"known_id,omitempty"`
 }
 
 func (e engineAbort) isViolation() bool { return e.kind == abortViolation }
@@ -234,11 +239,7 @@ func (m *Machine) addPC(c *Term, b bool) {
 }
 
 func (m *Machine) check(extra *Term) Verdict {
-	v := m.solver.Check(extra)
-	if v == Sat {
-		m.solver.ModelDone()
-	}
-	return v
+	return m.checkSat(extra)
 }
 
 // choose makes an n-way nondeterministic choice (scheduler, select, Choice).
@@ -383,7 +384,7 @@ func (m *Machine) assert(c *Term, label string, fr *frame) {
 		return
 	}
 	nc := m.ts.BNot(c)
-	v := m.solver.Check(nc)
+	v, model := m.checkSatModel(nc)
 	switch v {
 	case Unsat:
 		// holds on this path; c is implied, no need to add
@@ -391,12 +392,6 @@ func (m *Machine) assert(c *Term, label string, fr *frame) {
 	case Unknown:
 		panic(engineAbort{abortSolver, "solver unknown on assertion " + label})
 	}
-	vars := make([]*Term, 0, len(m.ndVars))
-	for _, v := range m.ndVars {
-		vars = append(vars, v.T)
-	}
-	model := m.solver.Model(vars)
-	m.solver.ModelDone()
 	m.violate("assert", label, "", model, fr)
 }
 
@@ -411,6 +406,7 @@ func (m *Machine) violate(kind, label, detail string, model map[string]uint64, f
 		v.DecKinds = append(v.DecKinds, d.kind)
 	}
 	v.Events = append(v.Events, m.events...)
+	v.KnownID = m.inKnown
 	if fr != nil {
 		v.Detail += m.where(fr)
 	}
@@ -461,6 +457,7 @@ type Result struct {
 	KnownHits    map[string]int
 	Funcs        map[string]int // function -> ssa instruction count
 	Solver       SolverStats
+	Fallback     FallbackStats
 	MaxPathSteps int64
 	MaxPathDecs  int
 	Samples      []PathSample
@@ -539,6 +536,10 @@ func (p *Program) Explore(cfg Config) *Result {
 				active--
 				frontier = append(frontier, m.forks...)
 				res.Steps += m.steps
+				res.Fallback.Sat += m.fb.Sat
+				res.Fallback.Unsat += m.fb.Unsat
+				res.Fallback.Unknown += m.fb.Unknown
+				res.Fallback.Seconds += m.fb.Seconds
 				res.Decisions += len(m.decs)
 				res.Asserts += m.asserts
 				if m.steps > res.MaxPathSteps {
@@ -589,7 +590,7 @@ func (p *Program) Explore(cfg Config) *Result {
 						res.Deadlocked++
 						outcome = "deadlock"
 						if cfg.NoDeadlock {
-							v := &Violation{Harness: cfg.Harness, Kind: "deadlock", Label: "deadlock", Detail: pr.abort.msg, Values: m.lastModel, Events: m.events}
+							v := &Violation{Harness: cfg.Harness, Kind: "deadlock", Label: "deadlock", Detail: pr.abort.msg, Values: m.lastModel, Events: m.events, KnownID: m.inKnown}
 							for _, nv := range m.ndVars {
 								v.Order = append(v.Order, nv.Name)
 							}
@@ -612,7 +613,7 @@ func (p *Program) Explore(cfg Config) *Result {
 					res.Panicked++
 					outcome = "panic: " + pr.panicVal
 					if cfg.NoPanic {
-						v := &Violation{Harness: cfg.Harness, Kind: "panic", Label: "panic", Detail: pr.panicVal, Values: m.lastModel, Events: m.events}
+						v := &Violation{Harness: cfg.Harness, Kind: "panic", Label: "panic", Detail: pr.panicVal, Values: m.lastModel, Events: m.events, KnownID: m.inKnown}
 						for _, nv := range m.ndVars {
 							v.Order = append(v.Order, nv.Name)
 						}
